@@ -184,3 +184,6 @@ func (s *Summary) Print() {
 	b, _ := json.Marshal(s)
 	fmt.Printf("SUMMARY %s\n", b)
 }
+
+// PickString returns one of the given strings.
+func (r *Rng) PickString(xs ...string) string { return xs[r.Intn(len(xs))] }
